@@ -67,7 +67,8 @@ type c08Case struct {
 	Tags   []c08Tag  `json:"tags,omitempty"`
 	Seed   uint64    `json:"shuffle_seed,omitempty"`
 
-	Profile string   `json:"profile,omitempty"` // canonical token form
+	Profile string   `json:"profile,omitempty"`       // canonical token form
+	More    []string `json:"more_profiles,omitempty"` // further sources given on the same command line
 	Args    []string `json:"args,omitempty"`
 	Runs    int      `json:"runs,omitempty"`
 	Out1    string   `json:"output_1,omitempty"`
@@ -165,8 +166,9 @@ func parseModelOrder(reply string) (order string, ties int, ok bool) {
 const c08Shuffles = 8
 
 // verdict shared by the three sort correspondences.
-//   orders: the order (as input indices) returned by the real code for each shuffle
-//   known : the input comes from the known-finding stream (strings with embedded spaces)
+//
+//	orders: the order (as input indices) returned by the real code for each shuffle
+//	known : the input comes from the known-finding stream (strings with embedded spaces)
 func c08Judge(c *Ctx, what, sigBase, theorem, req string, orders []string, cs c08Case) {
 	distinct := map[string]bool{}
 	for _, o := range orders {
@@ -268,26 +270,50 @@ func c08Nodes(c *Ctx, cs c08Case) {
 	c08Judge(c, "Nodes.Sort("+cs.Order+")", "C08/Nodes.Sort/"+cs.Order, "nodes_order_strict_total_partial", w.String(), orders, cs)
 }
 
-// c08Contract: the documented contract of Nodes.Sort on the primary key.
+// c08Contract: the documented contract of Nodes.Sort — "decreasing order for (absolute) numeric
+// quantities, alphabetically for text, and increasing for addresses" — on the key sequence that
+// the name of the order announces (FlatName = |flat| then name, FlatCumName = |flat|, |cum|, name, …).
 func c08Contract(c *Ctx, cs c08Case, ns graph.Nodes) {
+	desc := func(x, y int64) int { // decreasing magnitude
+		switch {
+		case c08abs(x) > c08abs(y):
+			return -1
+		case c08abs(x) < c08abs(y):
+			return 1
+		}
+		return 0
+	}
+	name := func(a, b *graph.Node) int { return strings.Compare(a.Info.PrintableName(), b.Info.PrintableName()) }
 	for i := 1; i < len(ns); i++ {
 		a, b := ns[i-1], ns[i]
-		bad := false
+		var keys []int
 		switch cs.Order {
-		case "FlatNameOrder", "FlatCumNameOrder":
-			bad = c08abs(a.Flat) < c08abs(b.Flat)
+		case "FlatNameOrder":
+			keys = []int{desc(a.Flat, b.Flat), name(a, b)}
+		case "FlatCumNameOrder":
+			keys = []int{desc(a.Flat, b.Flat), desc(a.Cum, b.Cum), name(a, b)}
 		case "CumNameOrder":
-			bad = c08abs(a.Cum) < c08abs(b.Cum)
+			keys = []int{desc(a.Cum, b.Cum), name(a, b)}
 		case "NameOrder":
-			bad = a.Info.Name > b.Info.Name
+			keys = []int{strings.Compare(a.Info.Name, b.Info.Name)}
 		case "FileOrder":
-			bad = a.Info.File > b.Info.File
+			keys = []int{strings.Compare(a.Info.File, b.Info.File)}
 		case "AddressOrder":
-			bad = a.Info.Address > b.Info.Address
+			switch {
+			case a.Info.Address < b.Info.Address:
+				keys = []int{-1}
+			case a.Info.Address > b.Info.Address:
+				keys = []int{1}
+			}
 		}
-		if bad {
-			c.Violation("C08/order-contract/Nodes.Sort/"+cs.Order, "result is not ordered by the documented primary key (decreasing magnitude for weights, increasing for text/addresses)", cs)
-			return
+		for _, k := range keys {
+			if k < 0 {
+				break
+			}
+			if k > 0 {
+				c.Violation("C08/order-contract/Nodes.Sort/"+cs.Order, "result is not ordered by the key sequence the order is named after (decreasing magnitude for weights, increasing for text/addresses)", cs)
+				return
+			}
 		}
 	}
 }
@@ -676,15 +702,16 @@ var c08TreeArgSets = [][]string{{"-dot", "-call_tree", "-nodefraction=0", "-edge
 
 type c08Job struct {
 	canon  string
-	file   string
+	more   []string
+	files  []string
 	args   []string
 	stream string
 	outs   [][]byte
 	codes  []int
 }
 
-func c08RunCLI(c *Ctx, tmp string, file string, args []string) ([]byte, int) {
-	full := append(append([]string{}, args...), "-symbolize=none", file)
+func c08RunCLI(c *Ctx, tmp string, files []string, args []string) ([]byte, int) {
+	full := append(append(append([]string{}, args...), "-symbolize=none"), files...)
 	cmd := exec.Command(c.Pprof, full...)
 	cmd.Env = []string{"HOME=" + tmp, "PPROF_TMPDIR=" + tmp, "PPROF_BINARY_PATH=" + tmp, "PATH=/nonexistent", "TZ=UTC"}
 	var out bytes.Buffer
@@ -711,7 +738,7 @@ func c08RunJobs(c *Ctx, tmp string, jobs []*c08Job, runs int) {
 			defer wg.Done()
 			for j := range ch {
 				for k := 0; k < runs; k++ {
-					o, code := c08RunCLI(c, tmp, j.file, j.args)
+					o, code := c08RunCLI(c, tmp, j.files, j.args)
 					j.outs = append(j.outs, o)
 					j.codes = append(j.codes, code)
 				}
@@ -758,15 +785,20 @@ func c08JudgeJobs(c *Ctx, jobs []*c08Job, runs int) {
 			}
 		}
 		key := strings.Join(j.args, "+")
+		if j.stream == "multi" {
+			key = "2-sources+" + key
+		}
 		c.Res.Hit("cli:" + j.args[0])
 		if allFail {
 			c.Res.Hit("cli-exit-nonzero:" + key)
 		}
-		c.Res.Count("cli/"+key+"/"+j.canon, !allFail && len(j.outs[0]) > 0)
+		c.Res.Count("cli/"+key+"/"+j.canon+strings.Join(j.more, "/"), !allFail && len(j.outs[0]) > 0)
 		if diff >= 0 {
-			cs := c08Case{Kind: "cli", Stream: j.stream, Profile: j.canon, Args: j.args, Runs: 4 * runs, Out1: c08ShowOut(j.outs[0]), Out2: c08ShowOut(j.outs[diff])}
+			cs := c08Case{Kind: "cli", Stream: j.stream, Profile: j.canon, More: j.more, Args: j.args, Runs: 4 * runs, Out1: c08ShowOut(j.outs[0]), Out2: c08ShowOut(j.outs[diff])}
 			sig := "C08/cli/" + key + "/nondeterministic"
-			if j.stream == "call_tree" {
+			if j.stream == "call_tree" && c08HasTwinPaths(j.canon) {
+				// several tree nodes share one NodeInfo (known finding); a call tree without
+				// such twins keeps the ordinary signature
 				sig = "C08/cli/call_tree/identical-info-nodes"
 			}
 			c.Violation(sig, fmt.Sprintf("pprof %s on the same profile printed different bytes in %d runs (fresh processes)", strings.Join(j.args, " "), len(j.outs)), cs)
@@ -774,7 +806,83 @@ func c08JudgeJobs(c *Ctx, jobs []*c08Job, runs int) {
 	}
 }
 
-var c08Strategies = []string{"pm-pairs", "pm-pairs", "same-names", "equal-flat-cum", "positive", "many-edges"}
+// c08HasTwinPaths: does some function occur under two different call paths (so that the call tree
+// has two nodes with the same NodeInfo)?
+func c08HasTwinPaths(canon string) bool {
+	p, err := ParseCanon(canon)
+	if err != nil {
+		return false
+	}
+	paths := map[string]map[string]bool{}
+	for _, s := range p.Sample {
+		path := ""
+		for i := len(s.Location) - 1; i >= 0; i-- {
+			l := s.Location[i]
+			names := []string{fmt.Sprintf("@%x", l.Address)}
+			if len(l.Line) > 0 {
+				names = nil
+				for k := len(l.Line) - 1; k >= 0; k-- {
+					if f := l.Line[k].Function; f != nil {
+						names = append(names, f.Name+"|"+f.Filename)
+					} else {
+						names = append(names, "?")
+					}
+				}
+			}
+			for _, n := range names {
+				if paths[n] == nil {
+					paths[n] = map[string]bool{}
+				}
+				paths[n][path] = true
+				path += "/" + n
+			}
+		}
+	}
+	for _, ps := range paths {
+		if len(ps) > 1 {
+			return true
+		}
+	}
+	return false
+}
+
+var c08Strategies = []string{"pm-pairs", "pm-pairs", "same-names", "equal-flat-cum", "positive", "many-edges", "entropy-twins"}
+
+// c08EntropyTwins: the float-summation hunt.  entropyScore adds -f·log2(f) terms while ranging over an
+// edge MAP; with weights around 1e14 one ulp of the sum is worth several units of int64(score*cum).
+// Twin nodes (same multiset of edge weights, same cum) have the same exact score, so only the
+// summation order can separate them — if it does, their order (and the N-numbering of -dot) varies.
+func c08EntropyTwins(r *Rng) *profile.Profile {
+	p := &profile.Profile{TimeNanos: 1700000000000000000, DurationNanos: 1e9, Period: 1,
+		PeriodType: &profile.ValueType{Type: "cpu", Unit: "nanoseconds"},
+		SampleType: []*profile.ValueType{{Type: "samples", Unit: "count"}},
+		Mapping:    []*profile.Mapping{{ID: 1, Start: 0x400000, Limit: 0x500000, File: "/bin/prog", HasFunctions: true}},
+	}
+	add := func(name string) *profile.Location {
+		id := uint64(len(p.Function) + 1)
+		f := &profile.Function{ID: id, Name: name, SystemName: name, Filename: "a.go", StartLine: 1}
+		p.Function = append(p.Function, f)
+		l := &profile.Location{ID: id, Mapping: p.Mapping[0], Address: 0x400000 + 16*id, Line: []profile.Line{{Function: f, Line: 10}}}
+		p.Location = append(p.Location, l)
+		return l
+	}
+	root := add("main")
+	k := 3 + r.Intn(5) // children per twin
+	scale := int64(1e13) * int64(1+r.Intn(50))
+	ws := make([]int64, k)
+	for i := range ws {
+		ws[i] = scale * int64(1+r.Intn(9))
+	}
+	twins := 2 + r.Intn(3)
+	for t := 0; t < twins; t++ {
+		tw := add(fmt.Sprintf("twin%d", t))
+		for i, w := range ws {
+			ch := add(fmt.Sprintf("c%d_%d", t, i))
+			p.Sample = append(p.Sample, &profile.Sample{Location: []*profile.Location{ch, tw, root}, Value: []int64{w}})
+		}
+	}
+	return p
+}
 
 func c08WriteProfile(dir string, i int, p *profile.Profile) (string, error) {
 	fn := filepath.Join(dir, fmt.Sprintf("p%d.pb.gz", i))
@@ -837,9 +945,13 @@ func c08CLI(c *Ctx, r *Rng, nprof, runs int) {
 	}
 	defer os.RemoveAll(tmp)
 	var jobs []*c08Job
+	prevFile, prevCanon, prevTypes := "", "", 0
 	for i := 0; i < nprof; i++ {
 		st := c08Strategies[i%len(c08Strategies)]
 		p := c08GenProfile(r, st)
+		if st == "entropy-twins" {
+			p = c08EntropyTwins(r)
+		}
 		if err := p.CheckValid(); err != nil {
 			c.Res.HarnessError = "generated profile invalid: " + err.Error()
 			return
@@ -860,11 +972,18 @@ func c08CLI(c *Ctx, r *Rng, nprof, runs int) {
 			if k >= 11 && (k+i)%3 != 0 {
 				continue
 			}
-			jobs = append(jobs, &c08Job{canon: canon, file: fn, args: a, stream: "plain"})
+			jobs = append(jobs, &c08Job{canon: canon, files: []string{fn}, args: a, stream: "plain"})
 		}
+		if prevFile != "" && prevTypes == len(p.SampleType) {
+			// two sources on one command line (fetched concurrently, merged in command-line order)
+			for _, a := range [][]string{{"-top"}, {"-tags"}, {"-proto"}} {
+				jobs = append(jobs, &c08Job{canon: prevCanon, more: []string{canon}, files: []string{prevFile, fn}, args: a, stream: "multi"})
+			}
+		}
+		prevFile, prevCanon, prevTypes = fn, canon, len(p.SampleType)
 		if i%3 == 0 {
 			for _, a := range c08TreeArgSets {
-				jobs = append(jobs, &c08Job{canon: canon, file: fn, args: a, stream: "call_tree"})
+				jobs = append(jobs, &c08Job{canon: canon, files: []string{fn}, args: a, stream: "call_tree"})
 			}
 		}
 	}
@@ -893,6 +1012,20 @@ func c08ReplayCLI(c *Ctx, cs c08Case) {
 		c.Res.HarnessError = err.Error()
 		return
 	}
+	fns := []string{fn}
+	for i, m := range cs.More {
+		q, err := ParseCanon(m)
+		if err != nil {
+			c.Res.HarnessError = "ParseCanon: " + err.Error()
+			return
+		}
+		f2, err := c08WriteProfile(tmp, i+1, q)
+		if err != nil {
+			c.Res.HarnessError = err.Error()
+			return
+		}
+		fns = append(fns, f2)
+	}
 	runs := cs.Runs
 	if runs < 8 {
 		runs = 16
@@ -900,10 +1033,10 @@ func c08ReplayCLI(c *Ctx, cs c08Case) {
 	// spread the runs over the workers: same job several times
 	var jobs []*c08Job
 	for k := 0; k < 8; k++ {
-		jobs = append(jobs, &c08Job{canon: cs.Profile, file: fn, args: cs.Args, stream: cs.Stream})
+		jobs = append(jobs, &c08Job{canon: cs.Profile, files: fns, args: cs.Args, stream: cs.Stream})
 	}
 	c08RunJobs(c, tmp, jobs, (runs+7)/8)
-	merged := &c08Job{canon: cs.Profile, file: fn, args: cs.Args, stream: cs.Stream}
+	merged := &c08Job{canon: cs.Profile, more: cs.More, files: fns, args: cs.Args, stream: cs.Stream}
 	for _, j := range jobs {
 		merged.outs = append(merged.outs, j.outs...)
 		merged.codes = append(merged.codes, j.codes...)
@@ -937,12 +1070,12 @@ func runC08(c *Ctx) {
 		return
 	}
 	r := NewRng(c.Seed)
-	c08Sorts(c, r.Fork(), 150*c.Scale)
-	runs := 4
-	nprof := 36
+	c08Sorts(c, r.Fork(), 300*c.Scale)
+	runs := 5
+	nprof := 70
 	if c.Scale > 1 {
 		runs = 8
-		nprof = 36 * c.Scale / 2
+		nprof = 70 * c.Scale / 2
 	}
 	c08CLI(c, r.Fork(), nprof, runs)
 }
